@@ -2,7 +2,7 @@
    VAL w rd := forall bs a r, bytes_ok bs -> rd bs = Ok (a, r) -> w a /\ bytes_ok r. *)
 From Coq Require Import ZArith List.
 From Strand Require Import Base.ZUtil Model.Outcome Model.Codec Model.Backend Model.ZBackend Model.Zkp Model.Wire
-  Proofs.ZLaws Proofs.CodecP Proofs.WireP.
+  Proofs.ZLaws Proofs.ZInst Proofs.CodecP Proofs.WireP.
 Import ListNotations.
 Open Scope Z_scope.
 
@@ -17,6 +17,13 @@ Theorem C11_exponent_acceptance : forall fl P bs v,
   exp_from_bytes fl P bs = Ok v <-> v = int_of_bytes fl bs /\ v < p_q P.
 Proof. exact exp_from_bytes_spec. Qed.
 Print Assumptions C11_exponent_acceptance.
+
+(* ... and for a safe-prime group that acceptance set is exactly the set of non-zero quadratic residues, i.e. the
+   prime-order subgroup: nothing outside it decodes and every element of it does (when presented as its integer) *)
+Theorem C11_members_are_the_quadratic_residues : forall P, SafePrime P -> forall a,
+  member P a <-> (1 <= a < p_p P /\ exists e, 0 < e < p_p P /\ (e ^ 2) mod p_p P = a).
+Proof. exact member_iff_quadratic_residue. Qed.
+Print Assumptions C11_members_are_the_quadratic_residues.
 
 (* every composite decodes only if each embedded element is a member and each exponent canonical *)
 Theorem C11_composites : forall K fl P, 1 < p_p P ->
